@@ -169,6 +169,7 @@ Fixpoint cloop (f : nat) (m : model) (data skipped : list datum) (st : store) (n
           let cnt := length data1 in
           match var with
           | None => LayoutErr 1
+          | Some ANone => LayoutErr 1      (* [if var is None]: the variable None is indistinguishable *)
           | Some v =>
               if Nat.eqb cnt 0 then LayoutErr 1
               else
